@@ -329,7 +329,7 @@ fn recursion_inventory(cx: &mut Ctx, facts: &Facts) {
     }
     // the cycle is cut: nested >= 2 early return, and the re-entry passes the field text
     if let Ok(s) = sm::load(&cx.repo, "parser/src/string.rs") {
-        let t = sm::tsc(&s.file);
+        let t = sm::tsx(&s.file);
         let cut = t.contains("fnparse_fstring(&mutself,nested:u8)->Result<Vec<Expr>,LexicalError>{useFStringErrorType::*;ifnested>=2{returnErr(FStringError::new(ExpressionNestedTooDeeply,self.get_pos()).into());}");
         let up = t.contains("letparsed_expr=self.parse_fstring(nested+1)?;") && t.contains("letparsed_values=self.parse_formatted_value(nested)?;") && t.contains("letparsed_spec=self.parse_spec(nested)?;") && t.contains("self.parse_fstring(0)");
         if cut && up {
@@ -355,7 +355,7 @@ struct SomeCk<'a> {
 
 impl<'a> SomeCk<'a> {
     fn cond_establishes(&self, cond: &syn::Expr) -> bool {
-        let t = sm::tsc(cond);
+        let t = sm::tsx(cond);
         if self.unwrap_recv == "iter.next()" {
             return t.starts_with("letSome(") && t.ends_with("=iter.peek()");
         }
@@ -364,7 +364,7 @@ impl<'a> SomeCk<'a> {
             || t.starts_with("matches!(self.window[0],Some(")
             || t == "self.is_identifier_continuation()"
             || (t.starts_with("letSome(") && t.ends_with("=self.peek()"))
-            || self.some_bools.contains(&t)
+            || self.some_bools.contains(&t.text)
     }
 
     /// returns whether window[0] is known Some after the statement list, given `known` before.
@@ -705,7 +705,7 @@ fn discharge_some(cx: &mut Ctx) {
         }
         if ty == "Lexer" {
             // predicate summaries
-            let t = sm::tsc(&src.file);
+            let t = sm::tsx(&src.file);
             let pred1 = t.contains("fnis_identifier_continuation(&self)->bool{matchself.window[0]{Some('a'..='z'|'A'..='Z'|'_'|'0'..='9')=>true,Some(c)=>is_xid_continue(c),_=>false,}}");
             if pred1 {
                 cx.ok(rule, "is_identifier_continuation() is true only for Some(..)");
@@ -777,7 +777,7 @@ fn discharge_constants(cx: &mut Ctx) {
         }
     }
     if let Ok(s) = sm::load(&cx.repo, "parser/src/string.rs") {
-        let t = sm::tsc(&s.file);
+        let t = sm::tsx(&s.file);
         let calls: Vec<&str> = t.match_indices("self.parse_unicode_literal(").map(|(i, _)| &t[i + 27..i + 29]).collect();
         let ok = calls.len() == 3 && calls.iter().all(|c| ["2)", "4)", "8)"].contains(c));
         if ok {
@@ -797,7 +797,7 @@ fn discharge_constants(cx: &mut Ctx) {
         }
     }
     if let Ok(p) = sm::load(&cx.repo, "parser/src/parser.rs") {
-        let t = sm::tsc(&p.file);
+        let t = sm::tsx(&p.file);
         if t.contains("letexpected=(expected.len()==1).then(||expected[0].clone());") {
             cx.ok(rule, "D.lenmatch: expected[0] under (expected.len() == 1).then(..)");
         } else {
@@ -1091,7 +1091,7 @@ fn progress(cx: &mut Ctx) {
     }
     // P2: inner_next / consume_normal
     if let Ok(lx) = sm::load(&cx.repo, "parser/src/lexer.rs") {
-        let t = sm::tsc(&lx.file);
+        let t = sm::tsx(&lx.file);
         let eof_emits = t.contains("self.emit((Tok::EndOfFile,TextRange::empty(tok_pos)));");
         let next_maps = t.contains("matchtoken{Ok((Tok::EndOfFile,_))=>None,r=>Some(r),}");
         if eof_emits && next_maps {
@@ -1159,7 +1159,7 @@ fn unsafe_inventory(cx: &mut Ctx) {
         }
     }
     if let Ok(nl) = sm::load(&cx.repo, "vendored/src/source_location/newlines.rs") {
-        let t = sm::tsc(&nl.file);
+        let t = sm::tsx(&nl.file);
         if t.contains("ifletSome(position)=memchr2(b'\\n',b'\\r',bytes){") && t.contains("unsafe{*bytes.get_unchecked(position)}") {
             cx.ok(rule, "find_newline: get_unchecked(position) with position = memchr2(.., bytes) on the same slice");
         } else {
